@@ -10,14 +10,15 @@ import (
 // Timing rules of the real back-end (the only places where wall-clock time enters):
 //   - an event / a state that must arrive is waited for up to mustArrive;
 //   - an event that must not arrive is polled for with timeout 0 twice, quietGap apart;
-//   - "socket full" is accepted only when a write still answers EAGAIN after fullQuiet without
-//     any progress (late ACKs may free space once more on TCP).
+//   - "socket full" on TCP is accepted only when a write still answers EAGAIN after everything
+//     that was transmitted has been acknowledged (late ACKs free send memory once more) and a
+//     further quietGap has passed.
 const (
 	mustArrive = 200 * time.Millisecond
 	quietGap   = 20 * time.Millisecond
-	fullQuiet  = 60 * time.Millisecond
+	slowArrive = 3 * time.Second // only for DialCompletes / DialRefused: they ride on the SYN retransmission (1 s)
 	drainLimit = 3 * time.Second
-	realChunk  = 3000
+	realChunk  = 10000 // larger than the minimal send buffers: filling starts with a short write
 )
 
 const (
@@ -27,7 +28,8 @@ const (
 	tcpCloseWait   = 8
 	soMeminfo      = 55
 	fionread       = 0x541B
-	siocoutq       = 0x5411
+	siocoutq       = 0x5411 // unsent + unacknowledged bytes
+	siocoutqnsd    = 0x894B // unsent bytes
 )
 
 // realWorld interprets steps with real system calls.
@@ -43,10 +45,12 @@ type realWorld struct {
 	senderOf  map[int]int // port -> sender number
 	uaddr     syscall.Sockaddr
 	aux       []int // descriptors to close at the end
+	pendingL  int   // listener of ConnectPending
 
 	sentA, drained  int // bytes written by A / read by the peer
 	peerSent, readA int // bytes written by the peer / read by A
 	short           bool
+	detail          string // raw result of the last step where the class is coarser than the errno
 	fillRetries     int
 	notes           []string
 }
@@ -254,6 +258,12 @@ func (w *realWorld) step(st Step, hint string) string {
 			w.detail = errClass(err)
 		}
 		return writeClass(n, err)
+	case OpWriteHuge:
+		n, err := syscall.Write(fd, make([]byte, 1<<20))
+		if err == nil && st.Role == A {
+			w.sentA += n
+		}
+		return hugeClass(n, 1<<20, err)
 	case OpFill:
 		return w.fill(st.Role, fd)
 	case OpRead:
@@ -371,6 +381,37 @@ func (w *realWorld) step(st Step, hint string) string {
 		return fmt.Sprintf("%d from=%s", n, s)
 	case OpConnectRefused, OpConnectPending, OpConnectAccepted:
 		return w.connect(st.Op)
+	case OpDialCompletes:
+		// make room in the accept queue: the retransmitted SYN is answered
+		s1, err := accept(w.pendingL)
+		if err != nil {
+			return err.Error()
+		}
+		w.aux = append(w.aux, s1)
+		if !within(slowArrive, func() bool { return tcpState(fd) == tcpEstablished }) {
+			return fmt.Sprintf("connect did not complete (state %d)", tcpState(fd))
+		}
+		s, err := accept(w.pendingL)
+		if err != nil {
+			return err.Error()
+		}
+		w.peer = s
+		return "ok"
+	case OpDialRefused:
+		// no listener any more: the retransmitted SYN is answered with RST
+		for i, a := range w.aux {
+			if a == w.pendingL {
+				w.aux = append(w.aux[:i], w.aux[i+1:]...)
+				break
+			}
+		}
+		if err := syscall.Close(w.pendingL); err != nil {
+			return errClass(err)
+		}
+		if !within(slowArrive, func() bool { return tcpState(fd) == tcpClose }) {
+			return fmt.Sprintf("connect was not refused (state %d)", tcpState(fd))
+		}
+		return "ok"
 	}
 	return "unknown op"
 }
@@ -494,10 +535,15 @@ func (w *realWorld) fill(r Role, fd int) string {
 	if !w.isTCP(fd) {
 		return result() // AF_UNIX: nothing happens asynchronously
 	}
-	// TCP: an ACK that is still on its way may free send memory once more; the socket counts as
-	// full when a quiet period changed nothing
+	// TCP: an ACK that is still on its way frees send memory once more; the socket counts as
+	// full when everything transmitted is acknowledged (what remains queued is unsent because
+	// the peer's window is closed, only the peer reading can change that) and a write still
+	// answers EAGAIN
 	for round := 0; round < 50; round++ {
-		time.Sleep(fullQuiet)
+		if !within(3*mustArrive, func() bool { return ioctlInt(fd, siocoutq)-ioctlInt(fd, siocoutqnsd) <= 0 }) {
+			w.notes = append(w.notes, "filling: transmitted data stayed unacknowledged")
+		}
+		time.Sleep(quietGap)
 		progress, err := pass()
 		if err != nil {
 			return errClass(err)
@@ -568,6 +614,7 @@ func (w *realWorld) connect(op Op) string {
 			return errClass(err)
 		}
 		w.aux = append(w.aux, l)
+		w.pendingL = l
 		filler, err := syscall.Socket(syscall.AF_INET, syscall.SOCK_STREAM|syscall.SOCK_NONBLOCK|syscall.SOCK_CLOEXEC, 0)
 		if err != nil {
 			return errClass(err)
